@@ -386,7 +386,14 @@ class Mini:
                     self.generic_lits.add(other)
                     return op == "Ne"
                 raise Unsupported(f"comparison {a!r} {op} {b!r}")
-            return {"Eq": a == b, "Ne": a != b, "Lt": a < b, "Le": a <= b, "Gt": a > b, "Ge": a >= b}[op]
+            try:
+                if op == "Eq":
+                    return a == b
+                if op == "Ne":
+                    return a != b
+                return {"Lt": lambda: a < b, "Le": lambda: a <= b, "Gt": lambda: a > b, "Ge": lambda: a >= b}[op]()
+            except TypeError:
+                raise Unsupported(f"comparison {op} of {type(a).__name__} and {type(b).__name__}")
         nbytes = INT_BITS.get(ty, 64) // 8
         if isinstance(a, (Tok, Wide, MTok)) or isinstance(b, (Tok, Wide, MTok)):
             if op == "Shl" and isinstance(b, int):
@@ -475,6 +482,8 @@ class Mini:
         return norm(self.cast0(v, frm, to))
 
     def cast0(self, v, frm, to):
+        if to.startswith(("*const", "*mut")):
+            return v  # pointer casts keep the object (identity is what std::ptr::eq compares)
         if to in INT_BITS:
             if isinstance(v, bool):
                 return int(v)
@@ -819,6 +828,11 @@ class Mini:
                 return (last, args[0])
         if "Ctor(Variant, Fn)" in H.strip(H.strip(n)[2])[2]:
             return ("variant", self.canon(p), args)
+        if p in ("std::ptr::eq", "core::ptr::eq") and len(args) == 2:
+            a_, b_ = args
+            if isinstance(a_, (list, tuple, dict)) and isinstance(b_, (list, tuple, dict)):
+                return a_ is b_
+            raise Unsupported("ptr::eq on values without identity")
         if p in ("std::iter::sources::once::once", "std::iter::once") and len(args) == 1:
             return ("iter", [args[0]])
         if p in ("std::iter::sources::empty::empty", "std::iter::empty"):
@@ -1233,6 +1247,45 @@ class Mini:
                 if self.truth(self.apply(args[0], [x])):
                     return ("Some", x)
             return "None"
+        if nm in ("cmp", "partial_cmp") and len(args) == 1 and (p.endswith("::cmp") or p.endswith("::partial_cmp")) and p.startswith(("std::cmp::", "core::cmp::", "std::str::", "std::string::", "std::slice::", "std::vec::", "std::tuple::", "std::collections::")):
+            a_, b_ = recv, args[0]
+            try:
+                o = "Less" if a_ < b_ else "Greater" if a_ > b_ else "Equal"
+            except TypeError:
+                raise Unsupported("cmp of incomparable / abstract values")
+            r_ = ("variant", "std::cmp::Ordering::" + o)
+            return ("Some", r_) if nm == "partial_cmp" else r_
+        if p.startswith("std::cmp::Ordering::") and nm in ("then_with", "then", "reverse", "is_eq", "is_ne", "is_lt", "is_gt", "is_le", "is_ge") and isinstance(recv, tuple) and recv[0] == "variant":
+            o = recv[1].split("::")[-1]
+            if nm == "then_with":
+                return recv if o != "Equal" else self.apply(args[0], [])
+            if nm == "then":
+                return recv if o != "Equal" else args[0]
+            if nm == "reverse":
+                return ("variant", "std::cmp::Ordering::" + {"Less": "Greater", "Greater": "Less", "Equal": "Equal"}[o])
+            return {"is_eq": o == "Equal", "is_ne": o != "Equal", "is_lt": o == "Less", "is_gt": o == "Greater", "is_le": o != "Greater", "is_ge": o != "Less"}[nm]
+        if p.startswith("std::slice::<impl [T]>::") and nm in ("sort_by", "sort_unstable_by") and isinstance(recv, list):
+            import functools
+
+            def cmpf(x, y):
+                r = self.apply(args[0], [x, y])
+                o = r[1].split("::")[-1] if isinstance(r, tuple) and r[0] == "variant" else None
+                if o not in ("Less", "Equal", "Greater"):
+                    raise Unsupported("sort_by comparator result")
+                return {"Less": -1, "Equal": 0, "Greater": 1}[o]
+            recv.sort(key=functools.cmp_to_key(cmpf))
+            return ()
+        if p.startswith("std::slice::<impl [T]>::") and nm in ("sort_by_key", "sort_unstable_by_key", "sort_by_cached_key") and isinstance(recv, list):
+            try:
+                recv.sort(key=lambda x: self.apply(args[0], [x]))
+            except TypeError:
+                raise Unsupported("sort_by_key over abstract keys")
+            return ()
+        if p.startswith("std::slice::<impl [T]>::") and nm == "windows" and isinstance(recv, list) and isinstance(args[0], int):
+            k_ = args[0]
+            return ("iter", [recv[i:i + k_] for i in range(0, len(recv) - k_ + 1)])
+        if p.startswith("std::slice::<impl [T]>::") and nm in ("first", "last") and isinstance(recv, list):
+            return ("Some", recv[0 if nm == "first" else -1]) if recv else "None"
         if p == "std::iter::traits::iterator::Iterator::for_each":
             for x in self.iterate(recv):
                 self.apply(args[0], [x])
